@@ -78,6 +78,11 @@ class NdArr:
       raise TypeError('len() of unsized object')
     return self.shape[0]
 
+  def __iter__(self):
+    if not self.shape:
+      raise TypeError('iteration over a 0-d array')
+    return iter([self.index(i) for i in range(self.shape[0])])
+
   def __repr__(self):
     return f'NdArr{self.shape}{self.data if len(self.data) <= 12 else self.data[:12] + ["..."]}'
 
